@@ -94,6 +94,7 @@ class AoRun:
 def run_real(sc, chooser, max_steps=2500):
     ar = AoRun()
     ar.errors = []
+    ar.over_capacity = []
     saved_cap = mhsm.HsmWithQueues.QUEUE_SIZE
     saved_pp = mao.pp
     mao.pp = lambda x: None
@@ -137,10 +138,13 @@ def run_real(sc, chooser, max_steps=2500):
                         e = Event(signal="E%d" % sig, payload=500000 + len(ids))
                         try:
                             f = ao.post_fifo if kind == 0 else ao.post_lifo
+                            tracked_before = len(ao.posted_events_queue)
                             tid = f(e, period=period, times=total, deferred=bool(deferred))
                             ids.append(tid)
                             results.append(len(ids))
                             sched.trace[mark][2] = "ok"
+                            if tracked_before >= sc.max_timers:
+                                ar.over_capacity.append((len(results), tracked_before))
                         except mao.ActiveObjectOutOfPostedEventResources:
                             results.append(0)
                             sched.trace[mark][2] = "rejected"
@@ -287,6 +291,9 @@ def oracle(run, focus, sc, ar, cj):
                     % (accepted, len(ar.timers), rejected), cj)
     if rejected:
         run.count("rejected timed post")
+    for nth, tracked_n in ar.over_capacity:
+        run.violate("C31/accepted-beyond-capacity", "timed post number %d was accepted although %d sources were already tracked "
+                    "(capacity %d, some of them finished but not cancelled)" % (nth, tracked_n, sc.max_timers), cj)
     # which timers were cancelled (by a call that can match) and when did that call return
     cancelled_after = {}
     tracked = []
